@@ -27,14 +27,19 @@ type gcase struct {
 	Setup      string // clone | recheckout
 	Skip       string // env (GIT_LFS_SKIP_SMUDGE=1 on every command) | config (git lfs install --skip-smudge style filter config)
 	Progress   bool   // GIT_LFS_PROGRESS names an absolute usable path on every command of the scenario
+	Ref        string // Setup clone only: the origin's store is a reference store of the clone (refstore.go); "" = none
 }
 
 // fm: filter mode plus the environment coordinate, as used in classes and triggers
 func (c gcase) fm() string {
+	m := c.FilterMode
 	if c.Progress {
-		return c.FilterMode + "+progress-env"
+		m += "+progress-env"
 	}
-	return c.FilterMode
+	if c.Ref != refNone {
+		m += "+reference-store/" + c.Ref
+	}
+	return m
 }
 
 func (c gcase) class() string {
@@ -180,7 +185,11 @@ func execGit(c gcase, seed int64, o obs, report func(sym, trigger, what string, 
 	switch c.Setup {
 	case "clone":
 		work = filepath.Join(env.Root, "clone")
-		res := env.Run(sbx.RunOpt{Dir: env.Root, Env: skipEnv}, "git", "clone", "-q", origin, work)
+		cloneArgs := []string{"clone", "-q"}
+		if c.Ref == refCloneRef {
+			cloneArgs = append(cloneArgs, "--reference", origin)
+		}
+		res := env.Run(sbx.RunOpt{Dir: env.Root, Env: skipEnv}, "git", append(cloneArgs, origin, work)...)
 		if res.GoCrash() {
 			report("go-panic", c.class()+"/clone", "git clone crashed: "+sbx.Trunc(res.Stderr, 1500), nil)
 			return
@@ -214,6 +223,40 @@ func execGit(c gcase, seed int64, o obs, report func(sym, trigger, what string, 
 			env.MustGit(work, "config", "filter.lfs.process", "git-lfs filter-process --skip")
 		}
 	}
+	if c.Ref != refNone {
+		if c.Setup != "clone" {
+			panic("reference-store scenarios need Setup clone")
+		}
+		originObjects := filepath.Join(origin, ".git", "objects")
+		switch c.Ref {
+		case refAlternates:
+			appendAlternate(gitDir, originObjects)
+		case refAltEnv:
+			cmdEnv = append(append([]string{}, cmdEnv...), "GIT_ALTERNATE_OBJECT_DIRECTORIES="+originObjects)
+		case refCloneRef:
+			if _, err := os.Stat(filepath.Join(gitDir, "objects", "info", "alternates")); err != nil {
+				panic("git clone --reference left no alternates file")
+			}
+			// the checkout with smudging skipped may have borrowed objects from the reference store: remove them again
+			o.add("refstore_borrowed_objects_removed_before_clean", removeLocalObjects(gitDir))
+		default:
+			panic("unknown reference-store kind " + c.Ref)
+		}
+		// monitor's own evidence: pointer files whose object sits hash-valid in the reference store only
+		var n int64
+		for _, f := range files {
+			if strings.HasPrefix(f.Kind, "lfs-content-") || f.Kind == "lookalike-content" {
+				if len(f.Wt) > 0 && onlyInReference(filepath.Join(origin, ".git"), gitDir, sbx.Sha256Hex(f.Wt), int64(len(f.Wt))) {
+					n++
+				}
+			}
+		}
+		if n == 0 {
+			panic("reference-store scenario: no pointer file has its object only in the reference store")
+		}
+		o.add("refstore_git_scenarios_"+c.FilterMode+"_"+c.Ref, 1)
+		o.add("refstore_git_pointer_files_object_only_in_reference_store", n)
+	}
 	if c.Progress {
 		cmdEnv = append(append([]string{}, cmdEnv...), "GIT_LFS_PROGRESS="+filepath.Join(env.Root, "lfs-progress.log"))
 		o.add("progress_env_cases_git-scenario-"+c.FilterMode, 1)
@@ -239,6 +282,7 @@ func execGit(c gcase, seed int64, o obs, report func(sym, trigger, what string, 
 		panic(err)
 	}
 	count0 := filt.CountObjects(gitDir)
+	set0 := objSet(gitDir)
 	kindOf := map[string]string{}
 	for _, f := range files {
 		kindOf[f.Path] = f.Kind
@@ -306,6 +350,13 @@ func execGit(c gcase, seed int64, o obs, report func(sym, trigger, what string, 
 		if !res.OK() {
 			report("git-command-failed", trig(step, ""), fmt.Sprintf("step %s on a tree of pointer files failed: %s", step, res.String()), nil)
 			ok = false
+			return
+		}
+		// nothing is added to local storage by cleaning pointers: the SET of object files after every step
+		o.add("object_set_checks", 1)
+		if d := objSetDiff(set0, objSet(gitDir)); d != "" {
+			ok = false
+			report("object-added-for-pointer", fmt.Sprintf("git-%s/%s/%s", c.fm(), step, c.Setup), fmt.Sprintf("after %s the set of files under lfs/objects changed although only pointer files were re-added: %s", step, d), nil)
 			return
 		}
 		after, err := lsFiles(env, work)
@@ -419,6 +470,10 @@ func execGit(c gcase, seed int64, o obs, report func(sym, trigger, what string, 
 	res = git("commit", "-q", "-a", "--allow-empty", "-m", "empty")
 	check("commit-a-2", res, false, true)
 	o.add("object_count_checks", 1)
+	o.add("object_set_checks", 1)
+	if d := objSetDiff(set0, objSet(gitDir)); d != "" && filt.CountObjects(gitDir) == count0 {
+		report("object-added-for-pointer", fmt.Sprintf("git-%s/whole-scenario/%s", c.fm(), c.Setup), "the set of files under lfs/objects changed while only pointer files were re-added: "+d, nil)
+	}
 	if n := filt.CountObjects(gitDir); n != count0 {
 		var names []string
 		for rel, e := range sbx.SnapshotLFS(gitDir) {
